@@ -27,7 +27,7 @@ mod verif_c18 {
     /// Circle vs the ideal circle of radius d/2 about the centre of the bounding box, up to a band of
     /// half a pixel: pixel centres closer than r - 1/2 are included, those further than r + 1/2 are not
     /// (doubled integer coordinates: |D| <= d - 1  =>  in;  |D| >= d + 1  =>  out). All d <= 2048.
-    //@harness prop=C18 kind=lemma tier=quick class=P fns=src/primitives/circle/mod.rs::Circle::contains;src/primitives/circle/mod.rs::diameter_to_threshold;src/primitives/circle/mod.rs::Circle::center_2x
+    //@harness prop=C18,C08 kind=lemma tier=quick class=P fns=src/primitives/circle/mod.rs::Circle::contains;src/primitives/circle/mod.rs::diameter_to_threshold;src/primitives/circle/mod.rs::Circle::center_2x
     #[kani::proof]
     fn c18_circle_vs_ideal_band() {
         let c = any_circle(2048);
@@ -93,7 +93,7 @@ mod verif_c18 {
     }
 
     /// a circle equals the ellipse with equal axes
-    //@harness prop=C18 kind=lemma tier=quick class=P fns=src/primitives/ellipse/mod.rs::Ellipse::contains;src/primitives/ellipse/mod.rs::EllipseContains::new
+    //@harness prop=C18,C08 kind=lemma tier=quick class=P fns=src/primitives/ellipse/mod.rs::Ellipse::contains;src/primitives/ellipse/mod.rs::EllipseContains::new
     #[kani::proof]
     fn c18_circle_equals_equal_axes_ellipse() {
         let c = any_circle(1024);
@@ -209,7 +209,7 @@ mod verif_c18 {
     }
 
     /// a sector sweeping 360 degrees or more equals the circle (either sign; floating point build)
-    //@harness prop=C18 kind=lemma tier=quick class=P fns=src/primitives/sector/mod.rs::Sector::contains;src/primitives/common/plane_sector.rs::PlaneSector::new
+    //@harness prop=C18,C08 kind=lemma tier=quick class=P fns=src/primitives/sector/mod.rs::Sector::contains;src/primitives/common/plane_sector.rs::PlaneSector::new
     #[kani::proof]
     fn c18_full_sweep_sector_equals_circle() {
         let c = any_circle(512);
